@@ -5,6 +5,8 @@ CONSTANTS
   BUGGY_F3 = FALSE
   BUGGY_F15 = FALSE
   BUGGY_F16 = FALSE
+  BUGGY_F18 = FALSE
+  BUGGY_F19 = FALSE
   KeySet <- K5
   MaxW = 1
   CurArgs <- Args6
